@@ -270,11 +270,16 @@ class C06(Property):
     rule = ('balanced networks planted by regrouping atoms/charge of random molecules over 1-3 elements (1-7 reactions of order <= 3, '
             'reversed steps, catalysts, inactive product parts, isomers); correspondence on dyadic rate constants m*2^e and states k/16 '
             '(zeros, single-species states = on a bound, wrong length), unbalanced systems (no callback), non-participating substances; '
+            'states with a negative entry (model = code also outside the box; the only states on which the upper-bound branch decides); '
             'oracle on the same systems with random float states and rate constants over 8 decades. '
             'EXPLORATION (sampled, not proof): first-order networks (branches, cycles, A -> 2 B, A -> B + C; k over 6-8 decades; 3 output '
             'times over 6 decades; atol/rtol 1e-6..1e-10; default integrator and integrator="scipy") from text through from_string/'
             'get_odesys/integrate vs exp(M t) c0 (scipy expm, mpmath 40 digits when |M| t > 100); A + B -> P, A + B <-> P, 2 A -> P vs '
-            'closed forms (own formula at 40 digits and chempy.kinetics.integrated); nonlinear networks: bounds and invariants only. '
+            'closed forms (own formula at 40 digits and chempy.kinetics.integrated); nonlinear networks: bounds and invariants only; '
+            'about 40% of the integrations go through the UNIT-AWARE pipeline (get_odesys(unit_registry=SI_base_registry), rate constants in '
+            'molar/millimolar/mol m-3 per second/minute, one of 6 concentration units PER initial concentration, c0 as dict / list / quantity '
+            'array, output times in s/min/ms/h, optional output units) and are converted back before the same comparisons; the Euler-step '
+            'claim is re-checked at every output row through the same (unit-carrying) entry point. '
             'Buckets "explore:*" count the integrations. A case is non-trivial when it is a distinct JSON value with >= 1 reaction.')
     assumptions = (
         'PARTIAL: accuracy and step control of the delegated integrator (pyodesys -> scipy LSODA) are runtime behaviour; sampled, not proved. '
@@ -283,7 +288,8 @@ class C06(Property):
         '(two roundings in (ub - y)/f amplified by ub/(ub - y) <= 5e3)',
         'numpy float division by a zero composition coefficient (inf/nan + RuntimeWarning) is outside the model (the model says ZeroDivisionError)',
         'quasi-positivity implies non-negativity of exact solutions by the classical invariance theorem for ODEs (Nagumo), not formalised here',
-        'rate parameters are plain numbers (MassAction); unit registries, include_params=False and user substitutions are C04/C10 subjects',
+        'rate parameters are plain numbers (MassAction) in the Lean model; the unit-aware entry points are covered by the oracle only '
+        '(SI_base_registry; the returned Euler step is then in seconds); include_params=False and user substitutions are C04/C10 subjects',
     )
     anchors = (('chempy/kinetics/ode.py', 'get_odesys'), ('chempy/reactionsystem.py', 'ReactionSystem.upper_conc_bounds'),
                ('chempy/reactionsystem.py', 'ReactionSystem.rates'), ('chempy/reactionsystem.py', 'ReactionSystem.check_balance'),
